@@ -138,8 +138,7 @@ C11_Clauses(v, o) ==
 (* The TCP layer (TcpConnecting::connect): one-sided, untimed reading of C10 for observations       *)
 (* taken through the public TcpTransport::connect_to_addrs against loopback ports.                  *)
 (*   v = [n, oc : <<"ok" (listening) | "err" (closed port) | "never" (does not answer)>>,           *)
-(*        tmoMs, conc],   o = [kind : "ok"|"err"|"timeout"|"noprogress"|"other", id, elapsedMs,     *)
-(*        delayLbMs : lower bound on the stagger the code must have used (timeout / n) or NONE]      *)
+(*        tmoMs, conc],   o = [kind : "ok"|"err"|"timeout"|"noprogress"|"other", id, elapsedMs]     *)
 Tcp_C10(v, o) ==
   /\ o.kind \in {"ok", "err", "timeout", "noprogress"}
   /\ o.kind = "ok" => o.id \in 1..v.n /\ v.oc[o.id] = "ok"
@@ -148,9 +147,14 @@ Tcp_C10(v, o) ==
   /\ o.kind = "timeout" => v.tmoMs # NONE /\ o.elapsedMs >= v.tmoMs
   /\ (v.n > 0 /\ \A i \in 1..v.n : v.oc[i] = "err") => o.kind = "err"      \* refusals are immediate
   /\ (v.n > 0 /\ \A i \in 1..v.n : v.oc[i] = "ok") => o.kind = "ok" /\ o.id = 1
-\* never earlier, one-sided: the connection came from candidate id > initial batch, all earlier ones
-\* never answer, so it cannot have been started before (id - batch) stagger delays of timeout / n
+\* TcpConnecting::connect derives the stagger as  delay = happy_eyeballs_timeout / number of addresses.
+\* never earlier, one-sided: when the connection came from a candidate beyond the initial batch and all
+\* earlier candidates never answer, it cannot have been started before (id - batch) such delays.
+TcpBatch(v) == IF v.conc = NONE THEN v.n ELSE EMin(v.n, EMax(v.conc, 1))
+TcpDelay(v) == IF v.n = 0 THEN v.tmoMs ELSE v.tmoMs \div v.n
 Tcp_C11(v, o) ==
-  /\ (v.tmoMs # NONE /\ o.kind = "ok" /\ o.delayLbMs # NONE) => o.elapsedMs >= o.delayLbMs
-  /\ (o.kind = "timeout") => o.elapsedMs >= v.tmoMs
+  /\ (/\ o.kind = "ok" /\ v.tmoMs # NONE /\ o.id > TcpBatch(v)
+      /\ \A i \in 1..(o.id - 1) : v.oc[i] = "never")
+        => o.elapsedMs >= (o.id - TcpBatch(v)) * TcpDelay(v)
+  /\ (o.kind = "timeout") => v.tmoMs # NONE /\ o.elapsedMs >= v.tmoMs
 =============================================================================
